@@ -256,6 +256,15 @@ Fixpoint commas (l : list (list tok)) : list tok :=
 Definition qkind_of (q : Quote.quote) : qkind := match q with QS => QSingle | QD => QDouble end.
 Definition pstr (st : QuoteMore.style) (body : bytes) : tok :=
   let q := QuoteMore.choose st body in TStr (qkind_of q) 0 (Quote.rewrite q body).
+(* the quote rule judged on an output token alone (C11): a quoted string carries the quote QuoteMore.choose picks for its own
+   body - the forced one, or the preferred one unless the other needs strictly fewer escapes (QuoteMore.choose_stable: the
+   choice for the rewritten body is the choice for the source body) *)
+Definition quote_ok (st : QuoteMore.style) (t : tok) : bool :=
+  match t with
+  | TStr QSingle _ b => match QuoteMore.choose st b with QS => true | QD => false end
+  | TStr QDouble _ b => match QuoteMore.choose st b with QD => true | QS => false end
+  | _ => true
+  end.
 Section PExp.
 Variable c : cfg0.
 (* space_after_function_names (context.rs / functions.rs create_function_call_trivia): a blank before the `(` of a call
